@@ -4,7 +4,7 @@ CONSTANTS
   PNames = {"value", "target", "x"}
   ExtraM = {"zz"}
   ExtraP = {"zz"}
-  CmdP = {}
+  CmdP = {"zz"}
   Wires = {"w1", "w2", "wbad"}
   ValidW = {"w1", "w2"}
   ENames = {"HardwareError", "Bogus"}
